@@ -50,6 +50,8 @@ class TLoopAll(Equation):
     def loop_all(self, d_idx, d_b, s_s, NBRS, N_NBRS):
         i = declare('int')
         s_idx = declare('long')
+        # the call itself counts, neighbours or not
+        d_b[d_idx] = (3.0*d_b[d_idx] + 1.0) % 1000003.0
         for i in range(N_NBRS):
             s_idx = NBRS[i]
             d_b[d_idx] = (11.0*d_b[d_idx] + s_s[s_idx] + self.c) % 1000003.0
